@@ -402,15 +402,16 @@ int main(int argc, char** argv) {
     return finish();
   }
   // bounds
-  int nmax = c.opt.count("nmax") ? atoi(c.opt["nmax"].c_str()) : (thorough() ? 4 : 3);
+  int nmax = c.opt.count("nmax") ? atoi(c.opt["nmax"].c_str()) : 4;
   int mmax = c.opt.count("mmax") ? atoi(c.opt["mmax"].c_str()) : (thorough() ? 5 : 4);
+  int m4 = c.opt.count("m4") ? atoi(c.opt["m4"].c_str()) : (thorough() ? mmax : 3);   // row bound for n = 4
   int mfull = c.opt.count("mfull") ? atoi(c.opt["mfull"].c_str()) : 4;   // up to this many rows: all layouts; beyond: reduced layouts
   uint64_t unit = 0;
   for (int n = 1; n <= nmax && !expired(); n++) {
     auto R = alphabet(n);
     auto subsets = all_subsets(n);
     int K = (int)R.size();
-    for (int m = 1; m <= mmax && m <= K && !expired(); m++) {
+    for (int m = 1; m <= (n >= 4 ? std::min(mmax, m4) : mmax) && m <= K && !expired(); m++) {
       std::vector<Layout> lays; std::vector<int> dims;
       layouts_rec(m, m, dims, 2, lays);
       bool reduced = (n == nmax && n >= 4 && m > mfull);
